@@ -175,10 +175,6 @@ module Z :
 
   val ltb : z -> z -> bool
 
-  val geb : z -> z -> bool
-
-  val gtb : z -> z -> bool
-
   val eqb : z -> z -> bool
 
   val abs : z -> z
@@ -458,6 +454,8 @@ val q_floordiv : q -> q -> q res
 val q_lt : q -> q -> bool
 
 val q_le : q -> q -> bool
+
+val rational_fmt : z -> q -> fmt_args
 
 val rational_str : z -> q -> string
 
